@@ -63,6 +63,11 @@ def confirm_py(wt, mut):
     rc_t, out_t = sh("cargo test --offline --no-fail-fast 2>&1", cwd=wt)
     results = re.findall(r"test result: (\w+)\. (\d+) passed; (\d+) failed", out_t)
     unit_ok = any(r[0] == "ok" and r[1] == "81" for r in results)
+    tries = 0
+    while not unit_ok and tries < 4:  # timing-flaky store tests, see confirm()
+        tries += 1
+        rc_u, out_u = sh("cargo test --offline --lib 2>&1", cwd=wt)
+        unit_ok = re.search(r"test result: ok\. 81 passed; 0 failed", out_u) is not None
     rc1, o1 = build_and_run()
     sh("git checkout -- src", cwd=wt)
     rc2, o2 = build_and_run()
